@@ -212,7 +212,7 @@ class Contract:
     def __init__(self, id, file, func, serves, params, requires=(), ensures=None, raises=None, assigns=(),
                  loops=None, inline=(), let=None, returns=None, ghost=None, notes=(), cases=None,
                  trusted=False, pure=False, setup=None, replay=None, exc_fields=None, defs=None,
-                 at_return=None, known=None, axioms=None, heavy=False, tier='quick'):
+                 at_return=None, known=None, axioms=None, heavy=False, tier='quick', prune_ms=None):
         self.id, self.file, self.func, self.serves = id, file, func, list(serves)
         self.params = dict(params)
         self.requires = list(requires)
@@ -237,12 +237,13 @@ class Contract:
         self.axioms = list(axioms or [])   # defining equations of spec functions: assumed here and at call sites
         self.heavy = heavy      # many obligations: discharged with obligation-level parallelism
         self.tier = tier        # 'thorough': too slow for the quick tier, run in the thorough tier only
+        self.prune_ms = prune_ms    # time limit of one path-pruning query (pruning only: a timeout keeps the path)
 
     def variant(self, name, **over):
         c = Contract(self.id + '[' + name + ']', self.file, self.func, self.serves, self.params,
                      self.requires, self.ensures, self.raises, self.assigns, self.loops, self.inline, self.let,
                      self.returns, self.ghost, self.notes, None, self.trusted, self.pure, self.setup, self.replay,
-                     self.exc_fields, self.defs, self.at_return, self.known, self.axioms, self.heavy, self.tier)
+                     self.exc_fields, self.defs, self.at_return, self.known, self.axioms, self.heavy, self.tier, self.prune_ms)
         for k, v in over.items():
             if k == 'params':
                 c.params = dict(self.params)
